@@ -1,9 +1,9 @@
 package rules
 
 import (
-	"go/types"
 	"fmt"
 	"go/token"
+	"go/types"
 	"strings"
 
 	"golang.org/x/tools/go/ssa"
@@ -730,7 +730,6 @@ func phiTokensGating(fn *ssa.Function, sink *ssa.BasicBlock, ph *ssa.Phi) []toke
 	return out
 }
 
-
 // c12Const: start, bound and step constants enter the symbolic arithmetic exactly. The converter
 // func(*ssa.Const) SCEV may build a constant node only from a literal or from the exact decimal text of
 // the constant (big.Int.SetString of ExactString/String under ok); fixed-width accessors are lossy
@@ -785,7 +784,6 @@ func c12Const(r *core.Run) {
 	}
 	r.Floor("C12.CONST", "constant nodes built by the SSA-constant converter", n, 2)
 }
-
 
 // c12Eval: evaluating a symbolic expression never changes it. Every EvaluateAt returns a value the caller may
 // keep (fresh, nil, cached, or what a sub-expression's EvaluateAt returned), and big.Int methods that write their
